@@ -19,7 +19,8 @@ SHARDS = {"quick": 16, "thorough": 16}
 KINDS = ("integer", "float", "enumerated", "boolean", "string", "binary", "abstime", "reltime")
 MUST = ["datasets", "cells.compared", "mode.raw", "mode.derived", "files.multi", "files.truncated_tail_before_next_file", "apids.multi", "polymorphic.rejected", "manyrows.datasets", "files.form.generator", "files.form.iter", "files.form.tuple"] + [f"cells.{k}" for k in KINDS]
 RULE = ("case = (flat definition: abstract root + one concrete child container per APID, each with a fixed list of "
-        "parameters of random kinds/encodings; packet files: 1-3 files, 1-4 APIDs interleaved, values at encoding extremes "
+        "parameters of random kinds/encodings; packet files: 1-3 files (30% of them ending in a truncated packet, which is no "
+        "packet of the stream), handed over as path / list / tuple / generator / iterator / map / Path list, 1-4 APIDs interleaved, values at encoding extremes "
         "- 0, max, sign bit, NaN/inf, empty and NUL-terminated strings/bytes; mode raw/derived). create_dataset's result is "
         "compared cell by cell with the reference decoder. distinct_nontrivial = distinct (mode, parameter kind, encoding "
         "variant, value class) signatures of compared cells where value class in {zero, negative, max-unsigned, huge>2^63, "
